@@ -4,4 +4,4 @@ Require Import ExtrOcamlBasic.
 From Verif Require Import Lib.Base Model.Resolver Model.Determinism.
 Extraction "model.ml"
   resolve_order resolve_cut resolve cutoff seed_oracle front_oracle ordered_funcs call_graph
-  func_info compile_check perms order_outcomes one_error lookup_final fnames name_shown func_keys sort_oracle sorting.
+  func_info compile_check perms order_outcomes one_error lookup_final fnames name_shown func_keys name_order_oracle sorting pass_fuel.
